@@ -140,8 +140,20 @@ def arrow_layer(chk, kind, cur, rep):
 def step(chk, kind, arr, n, r):
     """choose one derivation step; returns (new array | None on expected error, idx list, description)"""
     ops = ["slice", "slice", "stepslice", "mask", "take", "takefill", "concat", "copy", "pickle", "series_iloc", "frame_mask",
-           "intlist", "bad"]
+           "intlist", "bad", "whole", "whole"]
     op = r.choice(ops)
+    if op == "whole":
+        # full-length slices: same length as the source, not necessarily the same order
+        how = r.choice(("[::-1]", "[:]", "iloc[::-1]", "[n::-1]"))
+        if how == "[::-1]":
+            return arr[::-1], list(range(n))[::-1], "[::-1]"
+        if how == "[:]":
+            return arr[:], list(range(n)), "[:]"
+        if how == "[n::-1]":
+            return arr[n::-1], list(range(n))[n::-1], f"[{n}::-1]"
+        from spatialpandas import GeoSeries
+        sr = GeoSeries(arr)
+        return sr.iloc[::-1].array, list(range(n))[::-1], "GeoSeries.iloc[::-1]"
     if op == "slice":
         a = r.randint(-n - 1, n + 1); b = r.randint(-n - 1, n + 1)
         sl = slice(a, b)
@@ -246,6 +258,9 @@ def run_sequence(chk, kind, st, els, r, length):
     except Exception as e:  # noqa: BLE001
         chk.violation(f"quantities/{kind}/source-raises-{common.err_kind(e)}", dict(kind=kind, subtype=st, elements=els, error=repr(e)[:200]))
         return
+    indexed = bool(len(els)) and r.random() < 0.5
+    if indexed:
+        arr.build_sindex(page_size=r.choice((1, 2, 512)))
     cur, cur_idx, hist = arr, list(range(len(els))), []
     for _ in range(length):
         n = len(cur)
@@ -297,6 +312,24 @@ def run_sequence(chk, kind, st, els, r, length):
             if q[name] != want[name]:
                 chk.violation(f"quantities/{kind}/{name.split('(')[0]}-depends-on-derivation", dict(rep, quantity=name, derived=q[name], source_selection=want[name]))
                 return
+        # queries that go through the spatial index (built on the source before the derivation in half of the sequences, so a derived
+        # array must not answer from its parent's index): .cx and sindex.intersects against the same selection of the source's answers
+        if len(cur):
+            for b in BOXES[:2]:
+                wm = want[f"ib{b}"]
+                try:
+                    got_cx = canon_el(geo.to_elements(cur.cx[b[0]:b[2], b[1]:b[3]]))
+                    got_si = sorted(int(x) for x in cur.sindex.intersects(b))
+                except Exception as ex:  # noqa: BLE001
+                    chk.violation(f"quantities/{kind}/cx-raises-{common.err_kind(ex)}", dict(rep, box=list(b), error=repr(ex)[:200])); return
+                exp_cx = [canon_el(exp_els[k]) for k in range(len(cur)) if wm[k]]
+                if got_cx != exp_cx:
+                    chk.violation(f"quantities/{kind}/cx-depends-on-derivation", dict(rep, box=list(b), source_index_built=indexed, derived=got_cx, source_selection=exp_cx)); return
+                wb = want["bounds"]
+                exp_si = [k for k in range(len(cur)) if "nan" not in wb[k] and not (wb[k][2] < b[0] or wb[k][0] > b[2] or wb[k][3] < b[1] or wb[k][1] > b[3])]
+                if got_si != exp_si:
+                    chk.violation(f"quantities/{kind}/sindex-depends-on-derivation", dict(rep, box=list(b), source_index_built=indexed, derived=got_si, from_bounds=exp_si)); return
+            chk.count("index-queries:" + ("source-indexed" if indexed else "no-source-index"))
         # whole-array quantities: total_bounds (= NaN-ignoring fold of the selected rows' bounds of the source) and the
         # default-argument Hilbert distance (which uses it)
         sel = [q0["bounds"][i] for i in cur_idx if i is not None]
